@@ -31,6 +31,11 @@ META = {
 
 DRIVER = "c10driver"
 BIN = "c10"
+# rehearsal hooks (used to try the check against a patched copy of the repository before a fix is
+# committed): VERIF_C10_REPO = source tree for the translator, VERIF_C10_BIN = a harness binary built
+# against that tree (then the cargo build of /verif/harness is skipped).
+ALT_REPO = os.environ.get("VERIF_C10_REPO")
+ALT_BIN = os.environ.get("VERIF_C10_BIN")
 UNARY = ["neg", "recip", "abs", "numerator", "denominator", "isqrt"]
 BINARY = ["add", "sub", "mul", "div", "quotient", "remainder", "modulo", "gcd", "lcm", "expt",
           "eq", "lt", "gt", "le", "ge"]
@@ -172,7 +177,7 @@ def run_real_chunk(args):
     guard = 0
     while todo and guard < len(reqs) + 5:
         guard += 1
-        rc, out, err = C.run_bin([C.bin_path(BIN)], "\n".join(todo) + "\n", timeout=300, env=env)
+        rc, out, err = C.run_bin([ALT_BIN or C.bin_path(BIN)], "\n".join(todo) + "\n", timeout=300, env=env)
         lines = out.split("\n")
         if lines and lines[-1] == "" and out.endswith("\n"):
             lines = lines[:-1]
@@ -202,6 +207,8 @@ def run_real_chunk(args):
 
 
 def run_real(reqs, env=None, chunk=60):
+    if len(reqs) < 16 * chunk:
+        chunk = max(8, len(reqs) // 16)
     chunks = [(reqs[i:i + chunk], env) for i in range(0, len(reqs), chunk)]
     out = []
     for r in C.pool_map(run_real_chunk, chunks):
@@ -352,7 +359,8 @@ def run(ctx):
     stats = {"evaluations": 0, "requests": 0, "agree": 0, "ops": {}, "shapes": {}, "seen": set(),
              "samples": [], "pending": [], "viol": {}, "known": {}, "notes": {}}
     # translate
-    rc, tout = C.sh(["python3", os.path.join(C.VERIF, "translate", "c10_arms.py")], timeout=120)
+    rc, tout = C.sh(["python3", os.path.join(C.VERIF, "translate", "c10_arms.py")] +
+                    ([ALT_REPO] if ALT_REPO else []), timeout=120)
     tinfo = None
     if rc == 0:
         try:
@@ -365,7 +373,7 @@ def run(ctx):
     # prove
     pr = C.prove(ctx, PID, [DRIVER])
     # build
-    ok, log = C.build_harness(ctx, [BIN])
+    ok, log = (True, "") if ALT_BIN else C.build_harness(ctx, [BIN])
     base_cov = {"obligations": pr["obligations"], "discharged": pr["discharged"],
                 "checker_cmd": "cd lean && lake build SteelVerif.C10.Props && lake env lean SteelVerif/C10/Audit.lean",
                 "trusted_base": C.TRUSTED_BASE}
